@@ -90,6 +90,12 @@ for d in sorted(glob.glob(f"{OUT}/C*-*")):
     open(f"{dst}/demo.py", "w").write(demo)
     notes = open(f"{src}/notes.md").read() if os.path.exists(f"{src}/notes.md") else ""
     sec = section(notes, n0)
+    if not sec and os.path.exists(f"{src}/meta{n0}.json"):
+        try:
+            am = json.load(open(f"{src}/meta{n0}.json"))
+            sec = "; ".join(f"{k}: {am[k]}" for k in ("summary", "needs", "clause", "files") if am.get(k))
+        except Exception:
+            sec = open(f"{src}/meta{n0}.json").read()
     cands = [l.split()[0] for l in open(f"{d}/checks.txt") if "rc=1" in l or "rc=2" in l]
     if prop not in cands:
         cands.append(prop)
@@ -97,7 +103,8 @@ for d in sorted(glob.glob(f"{OUT}/C*-*")):
         "id": sid, "property": prop, "title": props[prop]["title"],
         "author": "fresh sub-agent given only the property text and a scratch worktree of /repo (nothing from /verif)"
                   + ("; second round: also told the one-line headings of the first-round changes, to avoid repeating them" if OFF == 3 else
-                     "; third round" if OFF == 6 else "; fourth round (tiny slips, 1-6 changed lines)" if OFF == 9 else ""),
+                     "; third round" if OFF == 6 else "; fourth round (tiny slips, 1-6 changed lines)" if OFF == 9 else
+                     "; sixth round (two cooperating sites, multi-step sequences, faults at a particular point, unusual inputs)" if OFF == 16 else ""),
         "needs_to_manifest": sec[:3000] or "see demo.py",
         "applies_to": f"/repo at {head} (git -C /repo apply patch.diff)",
         "what_was_run": {
